@@ -443,10 +443,22 @@ impl SourceFile {
     ///
     /// Returns None if the offset is out of bounds.
     pub fn get_line_column(&self, offset: usize) -> Option<LineColumn> {
-        let (_, zero_indexed_line, zero_indexed_column) = self.ariadne().get_byte_line(offset)?;
+        let before = self.source_text.get(..offset)?;
+        // Lines end at a GraphQL LineTerminator only: `\n`, `\r\n`, or `\r`
+        // https://spec.graphql.org/October2021/#LineTerminator
+        let bytes = self.source_text.as_bytes();
+        let mut line = 1;
+        let mut line_start = 0;
+        for (index, &byte) in before.as_bytes().iter().enumerate() {
+            if byte == b'\n' || (byte == b'\r' && bytes.get(index + 1) != Some(&b'\n')) {
+                line += 1;
+                line_start = index + 1;
+            }
+        }
         Some(LineColumn {
-            line: zero_indexed_line + 1,
-            column: zero_indexed_column + 1,
+            line,
+            // Count characters (Unicode Scalar Values), not bytes
+            column: before[line_start..].chars().count() + 1,
         })
     }
 
